@@ -1,5 +1,195 @@
-import O4.Model.ProbDist
-import O4.Model.CsRand
+import O4.Lemmas.Alias
+import O4.Lemmas.Drbg
+import O4.Generated.Consts.Probdist
+import Mathlib.Algebra.Order.Field.Rat
+import Mathlib.Tactic.NormNum
+/-!
+# C12 — seeded distributions and generator: deterministic, in range, exact
+
+Property theorems only.  Models: `O4/Model/{Crypto/SipHash,Drbg,GoRand,ProbDist,CsRand}.lean`;
+helper lemmas: `O4/Lemmas/{GoRand,ProbDist,Alias,Drbg}.lean`.  `minValues`/`maxValues` are the
+constants regenerated from `common/probdist`.
+
+All statements about `math/rand` derivations hold for an **arbitrary** `Int63` source (any state
+type, any `int63` function), all statements about the tables for an arbitrary number type
+(`NumOps`) unless a field is named.  `build` is the body of `Reset` (`genValues`, weights,
+`genTables`); results are `Option`s because the model's rejection loops carry fuel.
+-/
 namespace C12
-theorem placeholder : True := trivial
+open O4 O4.GoRand O4.ProbDist
+
+/-- **Determinism.** The tables are the explicit function `tablesOf` of (seed, min, max, biased):
+    `New` is that function whenever it does not panic, `Reset` is that function of the new seed
+    and the object's bounds/bias — whatever tables the object held before. -/
+theorem deterministic {α : Type} (ops : NumOps α) (seed : Bytes) :
+    (∀ mn mx b, mn < mx → ProbDist.new ops seed mn mx b = tablesOf ops seed mn mx b) ∧
+    (∀ d : Dist α, d.reset ops seed = tablesOf ops seed d.minValue d.maxValue d.biased) ∧
+    (∀ d d' : Dist α, d.minValue = d'.minValue → d.maxValue = d'.maxValue → d.biased = d'.biased →
+        d.reset ops seed = d'.reset ops seed) := by
+  refine ⟨?_, ?_, ?_⟩
+  · intro mn mx b h
+    simp [ProbDist.new, Int.not_le.mpr h]
+  · intro d; rfl
+  · intro d d' h1 h2 h3
+    simp [Dist.reset, h1, h2, h3]
+
+/-- non-vacuity: obfs4's bounds satisfy the hypothesis of the `New` clause -/
+example : (0 : Int) < 1448 ∧ (0 : Int) < 100 := by decide
+
+/-- a trivial source and number type, used only to show that hypotheses are satisfiable -/
+private def zeroSrc : Source Unit := ⟨fun s => (0, s)⟩
+private def natOps : NumOps Nat :=
+  ⟨0, 1, id, (· + ·), (· - ·), (· * ·), (· / ·), fun a b => a < b, fun a b => a ≤ b, id, (· == 1)⟩
+
+/-- non-vacuity of `build … = some …` (hypothesis of the next theorems): bounds 5..7 -/
+example : ((build natOps zeroSrc 5 7 false ()).map (·.1.values)) = some [2] := by decide +kernel
+
+/-- **Values in range, for any source stream.** The value table is a prefix of a permutation of
+    `[0, max-min]`, has between `minValues` (1) and `maxValues` (100) entries without repetition,
+    and every entry shifted by `min` lies in `[min, max]`. -/
+theorem values_in_range {σ α : Type} (ops : NumOps α) (src : Source σ) (mn mx : Int) (hle : mn ≤ mx)
+    (biased : Bool) (s : σ) (d : Dist α) (s' : σ)
+    (h : build ops src mn mx biased s = some (d, s')) :
+    (∃ p : List Nat, p.Perm (List.range (mx + 1 - mn).toNat) ∧ d.values = p.take d.values.length) ∧
+    Consts.Probdist.minValues ≤ d.values.length ∧ d.values.length ≤ Consts.Probdist.maxValues ∧
+    d.values.Nodup ∧ ∀ v ∈ d.values, mn ≤ mn + (v : Int) ∧ mn + (v : Int) ≤ mx := by
+  obtain ⟨wf, hmn, hmx, _⟩ := build_wellFormed ops src mn mx hle biased s d s' h
+  have hmin : Consts.Probdist.minValues ≤ 1 := by decide
+  refine ⟨?_, ?_, ?_, wf.values_nodup ops, ?_⟩
+  · have := wf.perm; rwa [hmn, hmx] at this
+  · have := wf.n_pos; omega
+  · exact wf.n_le
+  · intro v hv
+    have := wf.value_lt ops v hv
+    rw [hmn, hmx] at this
+    omega
+
+/-- **Every sample lies in the table and within the bounds** — for tables built from any source
+    in any number type, any die below the table size and any coin value; and hence for `Sample`
+    over any source of dice and coins. -/
+theorem sample_in_table {σ τ α : Type} (ops : NumOps α) (src : Source σ) (mn mx : Int) (hle : mn ≤ mx)
+    (biased : Bool) (s : σ) (d : Dist α) (s' : σ)
+    (h : build ops src mn mx biased s = some (d, s')) :
+    (∀ (die : Nat) (coin : α), die < d.values.length →
+      (∃ v ∈ d.values, d.sampleWith ops die coin = mn + (v : Nat)) ∧
+      mn ≤ d.sampleWith ops die coin ∧ d.sampleWith ops die coin ≤ mx) ∧
+    (∀ (rnd : Source τ) (t t' : τ) (x : Int), d.sample ops rnd t = some (x, t') →
+      (∃ v ∈ d.values, x = mn + (v : Nat)) ∧ mn ≤ x ∧ x ≤ mx) := by
+  obtain ⟨wf, hmn, hmx, _⟩ := build_wellFormed ops src mn mx hle biased s d s' h
+  have key : ∀ (die : Nat) (coin : α), die < d.values.length →
+      (∃ v ∈ d.values, d.sampleWith ops die coin = mn + (v : Nat)) ∧
+      mn ≤ d.sampleWith ops die coin ∧ d.sampleWith ops die coin ≤ mx := by
+    intro die coin hd
+    have := sampleWith_in_table ops wf die hd coin
+    rwa [hmn, hmx] at this
+  refine ⟨key, ?_⟩
+  intro rnd t t' x hx
+  unfold Dist.sample at hx
+  split at hx
+  · simp at hx
+  · rename_i i t1 hi
+    split at hx
+    · simp at hx
+    · rename_i c t2 _
+      simp only [Option.some.injEq, Prod.mk.injEq] at hx
+      rw [← hx.1]
+      exact key i c (intn_lt rnd _ t i t1 hi)
+
+/-- **Exactness of the sampling tables** (any linear ordered field `K`, e.g. `ℚ`; weights `≥ 0`
+    with positive sum): for every index `i` the probability the alias tables give to `i`,
+    `(prob[i] + Σ_{j : alias[j] = i} (1 - prob[j])) / n`, equals the normalised weight `w_i / Σw`;
+    each `prob[i]` is a probability; and the main loop leaves no "small" entries behind.
+    Proved via the loop invariant `O4.ProbDist.Inv` (`Lemmas/Alias.lean`). -/
+theorem alias_exact {K : Type} [Field K] [LinearOrder K] [IsStrictOrderedRing K]
+    (w : List K) (hw : ∀ x ∈ w, 0 ≤ x) (hS : 0 < w.sum) :
+    (∀ i, i < w.length →
+      ((genTables (fieldOps K) w).2.getD i 0 +
+          ∑ j ∈ Finset.range w.length, if (genTables (fieldOps K) w).1.getD j 0 = i
+            then 1 - (genTables (fieldOps K) w).2.getD j 0 else 0) / (w.length : K)
+        = w.getD i 0 / w.sum ∧
+      0 ≤ (genTables (fieldOps K) w).2.getD i 0 ∧ (genTables (fieldOps K) w).2.getD i 0 ≤ 1) ∧
+    (0 < w.length → (voseLoop (fieldOps K) w.length (voseInit (fieldOps K) w)).small = []) :=
+  ⟨fun i hi => genTables_exact w hw hS i hi,
+   fun hn => genTables_no_small_leftover w hn hw hS⟩
+
+/-- the same for the tables of a distribution object built over `K` from any source -/
+theorem alias_exact_dist {σ K : Type} [Field K] [LinearOrder K] [IsStrictOrderedRing K]
+    (src : Source σ) (mn mx : Int) (hle : mn ≤ mx) (biased : Bool) (s : σ) (d : Dist K) (s' : σ)
+    (h : build (fieldOps K) src mn mx biased s = some (d, s'))
+    (hw : ∀ x ∈ d.weights, 0 ≤ x) (hS : 0 < d.weights.sum) (i : Nat) (hi : i < d.values.length) :
+    (d.prob.getD i 0 + ∑ j ∈ Finset.range d.values.length,
+        if d.ali.getD j 0 = i then 1 - d.prob.getD j 0 else 0) / (d.values.length : K)
+      = d.weights.getD i 0 / d.weights.sum := by
+  obtain ⟨wf, _⟩ := build_wellFormed (fieldOps K) src mn mx hle biased s d s' h
+  have ht := wf.tables
+  have h1 : d.ali = (genTables (fieldOps K) d.weights).1 := congrArg Prod.fst ht
+  have h2 : d.prob = (genTables (fieldOps K) d.weights).2 := congrArg Prod.snd ht
+  rw [h1, h2, ← wf.weights_len]
+  exact (genTables_exact d.weights hw hS i (by rw [wf.weights_len]; exact hi)).1
+
+/-- non-vacuity of the hypotheses of `alias_exact` over `ℚ` -/
+example : (∀ x ∈ ([1, 3, 0, 2] : List ℚ), 0 ≤ x) ∧ 0 < ([1, 3, 0, 2] : List ℚ).sum := by
+  norm_num
+
+/-- **Ranges of the random helpers, for any source**: `min ≤ IntRange(min, max) ≤ max`
+    (inclusive), `Intn(n) < n` (exclusive), and `Float64` on the integer level: the two
+    real sources (DRBG, `crypto/rand` tape) return `Int63 < 2^63`, so that in exact arithmetic
+    `float64(Int63)/2^63 ∈ [0, 1)`. -/
+theorem intrange_bounds :
+    (∀ {σ : Type} (src : Source σ) (mn mx : Int) (s : σ) (v : Int) (s' : σ),
+        CsRand.intRange src mn mx s = .ok v s' → mn ≤ v ∧ v ≤ mx) ∧
+    (∀ {σ : Type} (src : Source σ) (n : Nat) (s : σ) (v : Nat) (s' : σ),
+        CsRand.intn src n s = some (v, s') → v < n) ∧
+    (∀ d : Drbg.HashDrbg, (drbgSource.int63 d).1 < 2 ^ 63) ∧
+    (∀ t : Tape, (tapeSource.int63 t).1 < 2 ^ 63) :=
+  ⟨fun src mn mx s v s' h => CsRand.intRange_bounds src mn mx s v s' h,
+   fun src n s v s' h => intn_lt src n s v s' h,
+   fun d => Drbg.int63_lt d,
+   fun t => tapeSource_int63_lt t⟩
+
+private theorem float64Loop_unit {σ K : Type} [Field K] [LinearOrder K] [IsStrictOrderedRing K]
+    (src : Source σ) (hsrc : ∀ s, (src.int63 s).1 < 2 ^ 63) :
+    ∀ (f : Nat) (s : σ) (x : K) (s' : σ),
+      float64Loop src (fieldOps K) f s = some (x, s') → 0 ≤ x ∧ x < 1 := by
+  intro f
+  induction f with
+  | zero => intro s x s' h; simp [float64Loop] at h
+  | succ f ih =>
+    intro s x s' h
+    simp only [float64Loop] at h
+    split at h
+    · exact ih _ _ _ h
+    · simp only [Option.some.injEq, Prod.mk.injEq] at h
+      rw [← h.1]
+      have hv : ((src.int63 s).1 : K) < 2 ^ 63 := by exact_mod_cast hsrc s
+      have hpos : (0 : K) < 2 ^ 63 := by positivity
+      simp only [fieldOps]
+      exact ⟨div_nonneg (Nat.cast_nonneg _) hpos.le, (div_lt_one hpos).mpr hv⟩
+
+/-- `Float64() ∈ [0, 1)` in exact arithmetic for every source that honours `Int63 < 2^63` -/
+theorem float64_unit_interval {σ K : Type} [Field K] [LinearOrder K] [IsStrictOrderedRing K]
+    (src : Source σ) (hsrc : ∀ s, (src.int63 s).1 < 2 ^ 63) (s : σ) (x : K) (s' : σ)
+    (h : float64 src (fieldOps K) s = some (x, s')) : 0 ≤ x ∧ x < 1 :=
+  float64Loop_unit src hsrc _ s x s' h
+
+/-- non-vacuity: `IntRange(-3, 4)` on a tape whose first word is 5·2^32 returns `2` -/
+example : (match CsRand.intRange tapeSource (-3) 4 ⟨[0, 0, 0, 5, 0, 0, 0, 0], false⟩ with
+    | .ok v _ => v | _ => 100) = 2 := by decide
+
+/-- **The generator is SipHash-2-4 in output-feedback mode over the accumulated input**: with
+    `(k0, k1)` the little-endian halves of the first 16 seed bytes and `IV` the next 8, block
+    `n+1` is `SipHash-2-4(k0, k1, IV ‖ out₁ ‖ … ‖ outₙ)` (little-endian bytes), for every `n`. -/
+theorem drbg_is_ofb (seed : Bytes) (n : Nat) :
+    (Drbg.newHashDrbg seed).blocks (n + 1) =
+      (Drbg.newHashDrbg seed).blocks n ++
+        [Crypto.SipHash.leBytes
+          (Crypto.sipHash24 (Crypto.sipKey (seed.take 16)).1 (Crypto.sipKey (seed.take 16)).2
+            ((seed.drop 16).take Drbg.size ++ ((Drbg.newHashDrbg seed).blocks n).flatten))] := by
+  rw [Drbg.blocks_succ, Drbg.nextBlock_after]
+  rfl
+
+/-- non-vacuity / test vector: the first block for the all-zero seed -/
+example : (Drbg.newHashDrbg (Bytes.zeros 24)).blocks 1 =
+    [Crypto.SipHash.leBytes (Crypto.sipHash24 0 0 (Bytes.zeros 8))] := by decide +kernel
+
 end C12
